@@ -29,12 +29,14 @@ partial def parseOp : List String → Option Op
   | ["ftrunc", n] => some (.ftrunc n.toNat!)
   | ["fclear"] => some .fclear
   | "item" :: i :: r => (parseOp r).map (.item i.toNat!)
+  | "last" :: r => (parseOp r).map .last
   | "assign" :: r => match parseInit (tokenize (" ".intercalate r)) with | some (i, []) => some (.assign i) | _ => none
   | _ => none
 
 /-- element type whose values an operation returns (for rendering), following `item` -/
 def retElemTy : Op → Ty → Option Ty
   | .item _ op, .flex it _ => retElemTy op it
+  | .last op, .ustruct _ last => retElemTy op last
   | _, .vec et _ => some et
   | _, _ => none
 
